@@ -19,10 +19,17 @@ TIE = ('correspondence: from_bedgraph, from_intervals, get_boolean_mask, to_arra
 ASSUMPTIONS = ['values are finite and small (no overflow / NaN): every value is sent to Coq as an exact dyadic rational m/2^e',
                'float results are compared exactly (values are integers or small dyadic rationals, so dense NumPy and the '
                'run-length evaluation agree bit for bit)']
-PARTIAL = ['npstructures RunLengthArray ufuncs / slicing / RunLength2dArray pileup are external: modelled by their meaning on run '
-           'lists (common refinement of the event lists, join of equal neighbours, clipping) and tied by correspondence only; '
-           'the theorems C09_ufunc_pointwise_partial etc. are about that abstract model, not about npstructures source',
-           'get_boolean_mask correctness (sort + merge) is proved under C08, here only from_intervals on the merged intervals']
+PARTIAL = ['npstructures RunLengthArray ufuncs / slicing / histogram / sum / RunLength2dArray pileup are external: modelled by their '
+           'meaning on run lists (common refinement of the event lists, join of equal neighbours, clipping of runs) and tied by '
+           'correspondence only; C09_ufunc_pointwise_partial, C09_expression_pointwise_partial, C09_histogram_partial, '
+           'C09_sum_int_partial are about that abstract model, not about npstructures source',
+           'C09_sum_int_partial covers bool/int tracks; float sums are checked by correspondence only',
+           'get_boolean_mask (argsort + merge_intervals) and get_pileup are tied by correspondence only; proved here is '
+           'from_intervals on sorted, strictly separated intervals (C09_from_intervals_dense_partial); touching intervals fail in '
+           'the pinned code (C09_from_intervals_touching_refuted), per-interval values always fail (C09_from_intervals_array_refuted)',
+           'the genome-level assembly local records -> global coordinates -> per-chromosome dense arrays is proved for the array side '
+           '(C09_to_dict_concat) but the statement dense(global records)[offset_c:offset_c+size_c] = dense(records of c) is left to '
+           'the correspondence check (it is C10-T2)']
 PER_FILE = 24
 
 KINDS = 'bif'
@@ -306,7 +313,7 @@ def generate(tier, seed):
             cases.append(mk(sizes, [leaf], ['leaf', 0] if i % 3 else rand_expr(rng, [leaf], 1), EDGES[i % len(EDGES)], names=i % 2))
             i += 1
     # C. random genomes, mixed leaves, expression trees to depth 3
-    n_rand = 500 if quick else 6000
+    n_rand = 1500 if quick else 8000
     for j in range(n_rand):
         nchrom = rng.randint(1, 4)
         sizes = [rng.randint(1, 7 if j % 5 == 0 else 4) for _ in range(nchrom)]
@@ -575,30 +582,53 @@ def _touching_raises(case, o):
 
 
 def finding(case, o):
-    # every leaf that is wrong must be explained by a known signature; otherwise it is a fresh violation
-    bad_other = False
+    """id of the known finding that explains this failing case: every leaf that is wrong must match a known
+    signature (narrow: call site + input class + the exact symptom); anything else is a fresh violation."""
+    import numpy as np
     hits = []
-    for idx, (l, lo) in enumerate(zip(case['leaves'], o['leaves'])):
+    for l, lo in zip(case['leaves'], o['leaves']):
         one = dict(case, leaves=[l])
         oo = dict(leaves=[lo])
         if _array_values_raises(one, oo):
             hits.append('C09-from-intervals-array-values')
         elif _touching_raises(one, oo):
             hits.append('C09-from-intervals-touching')
-        elif _bool_bedgraph_promoted(one, oo):
-            hits.append('C09-bool-bedgraph-promoted')
         elif not lo.get('ok'):
-            bad_other = True
-    if bad_other or not hits:
-        return None
-    return hits[0]
+            return None
+        else:
+            d = _dense_leaf(np, case, l)
+            if [v for ch in lo['dense'] for v in ch] != _arr_vals(d):
+                return None                      # wrong values are never a known finding
+            if _bool_bedgraph_promoted(one, oo):
+                hits.append('C09-bool-bedgraph-promoted')
+            elif lo.get('kind') != _kind_of(d.dtype) and l['recs']:
+                return None
+    return hits[0] if hits else None
+
+
+def search(tier, seed, disagreeing):
+    """extra inputs when only the correspondence (or a proof) broke: a differently seeded sample."""
+    return generate('quick', seed + 1)[:800]
 
 
 def signature(case, o):
-    errs = [str(lo.get('err', ''))[:40] for lo in o['leaves'] if not lo.get('ok')]
-    if errs:
-        return 'leaf-error:' + errs[0]
-    if not o['res'].get('ok'):
-        return 'result-error:' + str(o['res'].get('err', ''))[:40]
-    tags = sorted(set(l['tag'] for l in case['leaves']))
-    return 'wrong-value:tags=%s:depth=%d' % (tags, min(expr_depth(case['expr']), 1))
+    """which part of the observation is wrong first (one root cause -> one VIOLATION line)."""
+    import numpy as np
+    for l, lo in zip(case['leaves'], o['leaves']):
+        if not lo.get('ok'):
+            return 'leaf-tag%d-error:%s' % (l['tag'], str(lo.get('err', '')).split(':')[0])
+        d = _dense_leaf(np, case, l)
+        if lo.get('kind') != _kind_of(d.dtype) and l['recs']:
+            return 'leaf-tag%d-dtype' % l['tag']
+        if [v for ch in lo['dense'] for v in ch] != _arr_vals(d):
+            return 'leaf-tag%d-dense' % l['tag']
+    r = o['res']
+    if not r.get('ok'):
+        return 'result-error:' + str(r.get('err', '')).split(':')[0]
+    if r.get('kind') != o['np']['kind'] or [v for ch in r['dense'] for v in ch] != o['np']['dense']:
+        return 'result-dense'
+    if r.get('sum') != o['np']['sum']:
+        return 'sum'
+    if r.get('hist') != o['np']['hist']:
+        return 'histogram'
+    return 'get_data'
